@@ -16,7 +16,7 @@ LEVEL_TEXT = ("Static structural proof of necessary conditions, not of the prope
               "format_error* site in the closure binds to its message function through the decorator wrapper; no "
               "issue list returned inside the validator closure is discarded. Correctness of the rule predicates "
               "themselves (valid => no error; one fault => that code) is NOT decided.")
-LEVEL_EXTRA = 'Added after the seeded evaluation: (R1.4) the delimiter scan decides on the blank-stripped token text; (R1.5) no early exit skips a string-level check. (R1.6) no first/last-element access on a possibly empty list in the validators (validation reports, it does not raise IndexError).'
+LEVEL_EXTRA = 'Added after the seeded evaluation: (R1.4) the delimiter scan decides on the blank-stripped token text; (R1.5) no early exit skips a string-level check. (R1.6) no first/last-element access on a possibly empty list in the validators (validation reports, it does not raise IndexError). (R1.7) every setting a validator constructor stores on the object is read somewhere (one frozen exception).'
 
 
 def signature_rule(ctx, rule, funcs, floor_sites):
